@@ -17,11 +17,11 @@
    append / add / update(it1, it2, ...): _add_item per element               add_item, folds
    extend(items): for item in list(items): _add_item(item)                  copy FIRST (items may be the list itself
                                                                            or a one-shot iterator), then fold add_item
-   insert(i, v): _on_add(v) ; list.insert                                  record ; py_insert
-   __setitem__(i, v): _on_add(v) FIRST ; list.__setitem__ (IndexError      record even when the index is bad
-               is raised after the relation was recorded)
-   __setitem__(slice, v): v = [_on_add(e) for e in v] (drains a one-shot   materialise ; record EACH element ; py_setslice
-               iterator once, records per element) ; list.__setitem__ *)
+   insert(i, v): list.insert ; _on_add(v)                                  py_insert ; record
+   __setitem__(i, v): list.__setitem__ FIRST (IndexError before anything   py_setitem ; record only when stored
+               is recorded) ; _on_add(v)
+   __setitem__(slice, v): v = list(v) (drains a one-shot iterator once) ;  materialise ; py_setslice ; record EACH element
+               list.__setitem__ ; _on_add(e) for e in v *)
 From Coq Require Import List Bool Arith ZArith Lia.
 From Krrood Require Import Onto.ContainerSpec.
 Import ListNotations.
@@ -53,16 +53,17 @@ Definition step (k : kind) (o : op) (s : cst) : cst * bool :=
   | _, IAug vs => (desc_set k Live (builtin_iaug k vs s), false)
   | KList, Append x => (add_item KList s x, false)
   | KList, Extend vs => (fold_left (add_item KList) vs s, false)
-  | KList, Insert i x => ({| items := py_insert i x (items s); rec := rec s ++ [x] |}, false)
-  | KList, SetItem i x =>
+  | KList, Insert i x =>        (* list.insert FIRST, then _on_add *)
+      ({| items := py_insert i x (items s); rec := rec s ++ [x] |}, false)
+  | KList, SetItem i x =>       (* list.__setitem__ FIRST: a bad index raises IndexError before anything is recorded *)
       match py_setitem i x (items s) with
       | Some l' => ({| items := l'; rec := rec s ++ [x] |}, false)
-      | None => ({| items := items s; rec := rec s ++ [x] |}, true)
+      | None => (s, true)
       end
-  | KList, SetSlice i j vs =>   (* value = [self._on_add(v) for v in value]: every element recorded on its own; list.__setitem__ *)
+  | KList, SetSlice i j vs =>   (* value = list(value); list.__setitem__; then _on_add(v) for every element on its own *)
       ({| items := py_setslice i j vs (items s); rec := rec s ++ vs |}, false)
   | KList, SetSliceIter i j vs =>
-      let values := materialise (OneShot vs) s in   (* the comprehension drains the iterator exactly once, recording as it goes *)
+      let values := materialise (OneShot vs) s in   (* list(value) drains the iterator exactly once; stored, then recorded element by element *)
       ({| items := py_setslice i j values (items s); rec := rec s ++ values |}, false)
   | KList, ExtendSelf =>
       let values := materialise LiveIt s in         (* list(items) with items the live list: a snapshot *)
@@ -126,11 +127,16 @@ Record cst2 := { shared : list elt; recp : list elt; recq : list elt }.
 Definition ctor_alias (s : cst) : cst2 := {| shared := items s; recp := rec s; recq := items s |}.
 Definition append_q (x : elt) (t : cst2) : cst2 := {| shared := shared t ++ [x]; recp := recp t; recq := recq t ++ [x] |}.
 
-(* ---- a write path OUTSIDE the proved fragment (known finding C16-i) ----------------------------------------------
-   K_setitem_grown: __setitem__(i, v) / insert(i, v) call _on_add(v) BEFORE the builtin stores v.  On a field that inference writes
-   back into (a transitive or symmetric property: the relations inferred from (owner, f, v) have the owner as source and f as field)
-   the inferred elements [inf] are appended to the list first, so a NEGATIVE index is resolved against the grown list.
-   C16_writes models fields whose inferences go elsewhere (inf = []). *)
+(* ---- item assignment on a field that inference writes back into (transitive / symmetric property) ------------------------
+   The relations inferred from (owner, f, x) have the owner as source and f as field, so their targets [inf] are appended to the very
+   list that is written.  Since cd6cc17 the value is stored first and recorded afterwards: the index means what Python says, and
+   the inferred elements that are not there yet follow. *)
+Definition setitem_then_infer (i : Z) (x : elt) (inf : list elt) (l : list elt) : option (list elt) :=
+  match py_setitem i x l with
+  | Some l' => Some (l' ++ filter (fun e => negb (memb e l')) inf)
+  | None => None
+  end.
+(* before cd6cc17 _on_add ran first: the inferred elements were appended before the builtin resolved a negative index *)
 Definition setitem_grown (i : Z) (x : elt) (inf : list elt) (l : list elt) : option (list elt) := py_setitem i x (l ++ inf).
 
 From Krrood Require Import Base.Sx.
@@ -141,5 +147,5 @@ Definition ctor_copy_out (vs0 : list elt) (x : elt) : sx :=
   let p := init KList vs0 in
   let q := add_item KList (ctor_copy p) x in
   SL [elts_sx (items p); elts_sx (rec p); elts_sx (items q); elts_sx (rec q)].
-Definition setitem_grown_out (i : Z) (x : elt) (inf l : list elt) : sx :=
-  match setitem_grown i x inf l with Some l' => elts_sx l' | None => SZ (-1) end.
+Definition setitem_then_infer_out (i : Z) (x : elt) (inf l : list elt) : sx :=
+  match setitem_then_infer i x inf l with Some l' => elts_sx l' | None => SZ (-1) end.
